@@ -757,7 +757,10 @@ def _http_request(eng, st, args, kwargs, line):
 
 
 lib.OPAQUE_ATTR[('HttpResp', 'status_code')] = lambda eng, st, o: V(INT, resp_status(o.t))
+lib.OPAQUE_ATTR[('HttpResp', 'status')] = lambda eng, st, o: V(INT, resp_status(o.t))     # aiohttp
 LIBM[('opaque:WS', 'send_binary')] = lambda *a: _ws_send(*a)
+LIBM[('opaque:WS', 'send_bytes')] = lambda *a: _ws_send(*a)       # aiohttp ClientWebSocketResponse
+LIBM[('opaque:WS', 'send_str')] = lambda *a: _ws_send(*a)
 
 
 # ---- ASGI server callables (assumed: receive() yields an event dict with a 'type'; send(msg)
